@@ -12,8 +12,8 @@ use serde_json::{json, Value};
 use std::collections::HashMap;
 
 const NONUM: i64 = -99999999;
-pub const PATHS: [&str; 10] = ["A.x", "A.y", "A.s", "A.l", "A.n.z", "B.x", "B.s", "F.q", "k", "T.c"];
-const NUMPATHS: [&str; 6] = ["A.x", "A.y", "A.n.z", "B.x", "F.q", "k"];
+pub const PATHS: [&str; 10] = ["A.x", "A.y", "A.s", "A.l", "A.n.z", "B.rate", "B.s", "F.q", "k", "T.c"];
+const NUMPATHS: [&str; 6] = ["A.x", "A.y", "A.n.z", "B.rate", "F.q", "k"];
 const STRS: [&str; 9] = ["a", "ab", "abc", "b", "bé", "日本", "2", "2.5", ""];
 
 // ---- values: (engine value, spec JSON) ----
@@ -100,6 +100,7 @@ fn gen_flat(rng: &mut Rng, maxops: usize, allow_str: bool) -> (String, Value) {
     let mut ops: Vec<&str> = vec![];
     let mut text = String::new();
     let stringy = allow_str && rng.chance(1, 10);
+    let tight = !stringy && rng.chance(1, 3);
     for k in 0..=nops {
         let op = if k == 0 { "" } else if stringy { "+" } else { ["+", "-", "*", "/", "%", "+", "-"][rng.below(7)] };
         // operand (the one after / or % is a small positive integer literal, so that results stay exact)
@@ -125,7 +126,8 @@ fn gen_flat(rng: &mut Rng, maxops: usize, allow_str: bool) -> (String, Value) {
             (render_lit(&v), json!(["n", spec_of(&v)]))
         };
         if k > 0 {
-            text.push_str(&format!(" {} ", op));
+            // blanks around operators are optional in GRL: one expression in three is written without any
+            if tight { text.push_str(op); } else { text.push_str(&format!(" {} ", op)); }
             ops.push(op);
         }
         text.push_str(&txt);
@@ -229,7 +231,7 @@ fn one_program(rng: &mut Rng, mode: &str) -> Value {
     if present(rng) { let v = gen_num(rng); init.insert("A.n.z".into(), spec_of(&v)); n.insert("z".to_string(), v); }
     if rng.chance(5, 6) { a.insert("n".to_string(), RV::Object(n)); } else { init.insert("A.n.z".into(), absent()); }
     facts.set("A", RV::Object(a));
-    if present(rng) { let v = gen_num(rng); init.insert("B.x".into(), spec_of(&v)); b.insert("x".to_string(), v); }
+    if present(rng) { let v = gen_num(rng); init.insert("B.rate".into(), spec_of(&v)); b.insert("rate".to_string(), v); }
     if present(rng) { let v = gen_str(rng); init.insert("B.s".into(), spec_of(&v)); b.insert("s".to_string(), v); }
     facts.set("B", RV::Object(b));
     if present(rng) { let v = gen_num(rng); init.insert("F.q".into(), spec_of(&v)); facts.set("F.q", v); }
@@ -279,7 +281,7 @@ fn one_program(rng: &mut Rng, mode: &str) -> Value {
                 continue;
             }
             // no string targets in the self-triggering mode: `A.s = A.s + A.s` doubles the string every pass
-            let target = ["A.x", "A.y", "A.n.z", "B.x", "F.q", "k", "T.c", "A.s"][rng.below(if mode == "c03" { 7 } else { 8 })];
+            let target = ["A.x", "A.y", "A.n.z", "B.rate", "F.q", "k", "T.c", "A.s"][rng.below(if mode == "c03" { 7 } else { 8 })];
             if rng.chance(1, 2) {
                 let v = if target == "A.s" { gen_str(rng) } else { gen_num(rng) };
                 acts.push(ActionType::Set { field: target.to_string(), value: v.clone() });
